@@ -11,9 +11,9 @@ import (
 
 var jsonBodies = []string{
 	`{"n":1,"t":"a","tags":["x","y"],"sub":{"p":1,"q":{"r":true}}}`,
-	`{"n":2,"t":"b","tags":[],"sub":{"p":2}}`,
+	`{"n":2,"t":"b","tags":[],"sub":{"p":2},"gap":null}`,
 	`{"n":3,"t":"a","s":"he said \"hi\" <&>","arr":[1,2,3]}`,
-	`{"n":-4,"t":"c","deep":{"a":{"b":{"c":1}}}}`,
+	`{"n":-4,"t":"c","deep":{"a":{"b":{"c":1}}},"gap":{"y":null}}`,
 	`{"n":5.5,"t":"b","u":"ünï©ødé"}`,
 	`{"t":"nokey"}`,
 }
@@ -58,6 +58,7 @@ type Gen struct {
 	Hnd     int
 	BadJSON int // if > 0, one in BadJSON xattr-setting ops carries an unparseable xattr value
 	Big     int // if > 0, one in Big bodies is padded to 64 KiB - 1 MiB
+	EmptyX  int // if > 0, one in EmptyX bodies handed to the body+xattr entry points is zero-length (but not nil)
 	n       int
 }
 
@@ -74,6 +75,14 @@ func (g *Gen) jsonBody() []byte {
 	b := rng.Pick(g.R, jsonBodies)
 	// make the value unique so a read identifies the write it observed
 	return []byte(b[:len(b)-1] + `,"u":"` + g.uniq() + `"}`)
+}
+
+// xBody is the body handed to WriteWithXattrs / WriteResurrectionWithXattrs / WriteUpdateWithXattrs.
+func (g *Gen) xBody() []byte {
+	if g.EmptyX > 0 && g.R.Chance(1, g.EmptyX) {
+		return []byte{} // a zero-length body is still a body, not a request to delete it
+	}
+	return g.jsonBody()
 }
 func (g *Gen) rawBody() []byte {
 	if g.R.Chance(1, 12) {
@@ -197,7 +206,7 @@ func (g *Gen) Make(kind string) Op {
 		if g.R.Chance(1, 4) {
 			o.BodyNil = true
 		} else {
-			o.Body = g.jsonBody()
+			o.Body = g.xBody()
 		}
 		if g.R.Chance(1, 3) {
 			o.XDel = g.xnames(2)
@@ -231,14 +240,14 @@ func (g *Gen) Make(kind string) Op {
 		}
 		g.maybeMacro(&o)
 	case KWriteRes:
-		o.Exp, o.Body = g.exp(), g.jsonBody()
+		o.Exp, o.Body = g.exp(), g.xBody()
 		if g.R.Chance(4, 5) {
 			o.X = g.xset(2, false)
 		}
 		g.maybeMacro(&o)
 	case KWriteUpd:
 		o.Mode = rng.Pick(g.R, []string{"body", "body", "xonly", "tomb", "error", "retryonce"})
-		o.Body = g.jsonBody()
+		o.Body = g.xBody()
 		o.X = g.xset(2, false)
 		if g.R.Chance(1, 3) {
 			e := g.exp()
@@ -290,6 +299,9 @@ func (g *Gen) Make(kind string) Op {
 		o.CasClass = g.casClass([]int{5, 4, 2, 1})
 		if kind == KWriteSub && g.R.Chance(1, 5) {
 			o.Body = nil // remove the property
+			if g.R.Bool() {
+				o.Body = []byte{} // an empty value removes too, nil or not
+			}
 		} else {
 			o.Body = []byte(rng.Pick(g.R, subdocValues))
 			if g.R.Bool() {
@@ -303,7 +315,7 @@ func (g *Gen) Make(kind string) Op {
 	return o
 }
 
-var subdocPaths = []string{"n", "t", "newprop", "sub.p", "sub.q.r", "sub.newp", "sub.q.newr", "tags.x", "n.x", "missing.x", "deep.a.b.c", "deep.a.b.d", "sub"}
+var subdocPaths = []string{"gap.x", "gap.y.z", "n", "t", "newprop", "sub.p", "sub.q.r", "sub.newp", "sub.q.newr", "tags.x", "n.x", "missing.x", "deep.a.b.c", "deep.a.b.d", "sub"}
 var subdocValues = []string{`1`, `"str"`, `{"k":"v"}`, `[1,2]`, `true`, `{"p":9,"z":{"y":1}}`}
 
 // xblob builds the xattr blob handed to SetWithMeta/DeleteWithMeta. rosmar stores that blob verbatim and
@@ -403,7 +415,7 @@ func (g *Gen) Random(p Profile) Op {
 // Variants enumerates every op shape (kind × option × CAS class) with fixed representative arguments.
 func Variants() []Op {
 	var out []Op
-	jb := []byte(`{"n":9,"t":"v","sub":{"p":1}}`)
+	jb := []byte(`{"n":9,"t":"v","sub":{"p":1},"gap":null}`)
 	rb := []byte("raw\x00variant")
 	x1 := map[string]string{"_sync": `{"seq":7,"rev":"7-x"}`, "u1": `{"a": 1}`}
 	xs := map[string]string{"_vv": `{"cv":"1@a"}`}
@@ -471,6 +483,15 @@ func Variants() []Op {
 	add(Op{Kind: KWriteUpd, Mode: "xonly", X: map[string]string{"_sync": `{"seq":2}`}, Preserve: true})
 	add(Op{Kind: KDeleteWX, XDel: []string{"u1"}})
 	add(Op{Kind: KWriteSub, CasClass: CasZero, Path: "sub.p", Body: nil})
+	add(Op{Kind: KWriteSub, CasClass: CasZero, Path: "sub.p", Body: []byte{}})
+	add(Op{Kind: KWriteSub, CasClass: CasCurrent, Path: "n", Body: []byte{}})
+	add(Op{Kind: KWriteSub, CasClass: CasZero, Path: "gap.x", Body: []byte(`1`)})
+	add(Op{Kind: KSubInsert, CasClass: CasZero, Path: "gap.x", Body: []byte(`1`)})
+	add(Op{Kind: KWriteWX, CasClass: CasZero, Body: []byte{}, X: xs})
+	add(Op{Kind: KWriteWX, CasClass: CasCurrent, Body: []byte{}, X: xs})
+	add(Op{Kind: KWriteRes, Body: []byte{}, X: xs})
+	add(Op{Kind: KWriteRes, Body: []byte{}})
+	add(Op{Kind: KWriteUpd, Mode: "body", Body: []byte{}, X: xs})
 	add(Op{Kind: KWriteUpd, Mode: "body", Body: jb, X: map[string]string{"_sync": `{"seq":1}`}, Macros: []Macro{{Path: "_sync.cas", Type: 0}, {Path: "_sync.crc", Type: 1}}})
 	add(Op{Kind: KWriteWX, CasClass: CasCurrent, Body: jb, X: map[string]string{"_sync": `{"seq":1}`}, Macros: []Macro{{Path: "_sync.cas", Type: 0}, {Path: "_sync.crc", Type: 1}}})
 	add(Op{Kind: KUpdateX, CasClass: CasCurrent, X: map[string]string{"_vv": `{"v":1}`}, Macros: []Macro{{Path: "_vv.cas", Type: 0}, {Path: "_vv.crc", Type: 1}}})
